@@ -318,10 +318,11 @@ class Rig:
     def run(self, mode="do"):
         phase = None
         try:
-            if mode == "do":
-                self.doist.do()
-            else:
-                asyncio.run(self.doist.ado())
+            with core.watchdog(10.0):
+                if mode == "do":
+                    self.doist.do()
+                else:
+                    asyncio.run(self.doist.ado())
             phase = "ok"
         except ValueError as ex:
             phase = "raised"
